@@ -8,6 +8,7 @@
 import GoBT.Interp.Exec
 import GoBT.Interp.FlagLemmas
 import GoBT.Interp.WriteReview
+import GoBT.Props.C05
 namespace GoBT.C06
 open GoBT GoBT.Interp GoBT.Script
 
@@ -269,6 +270,93 @@ theorem forkid_flag_refuses_legacy_hash_types (H : Crypto) (flags : Nat) (ctx : 
 
 /-! ### non-vacuity -/
 example : walk (· == ·) [2, 5] [1, 2, 3, 5] = true ∧ walk (· == ·) [5, 2] [1, 2, 3, 5] = false := by decide
+
+/-- the verification relation of the multisig walk: the signature (without its hash-type byte) verifies under the key for
+    the digest of the script code for that hash type -/
+def sigVerifies (env : Env) (c : Ctx) (sc : Bytes) (sg k : Bytes) : Bool :=
+  match sigDigest env c sc ((sg.getLast?.getD 0).toNat) with
+  | some h => (env.H.verify false sg.dropLast h k).getD false
+  | none => false
+
+/-- **OP_CHECKMULTISIG reports success exactly when the signatures are valid for keys taken in key order.**  The whole
+    opcode, not only its loop: the stack holds `n, keys…, m, signatures…, dummy` (counts as script numbers, keys and
+    signatures in the order they are popped), the counts respect the era's limits, no encoding / null-dummy / null-fail /
+    FORKID flag is set (those turn specific malformed cases into hard failures: `nulldummy_logic`, `encoding_checks_need_flags`,
+    `forkid_flag_refuses_legacy_hash_types`), the keys parse and the signatures are non-empty and parse.  Then the opcode
+    pops everything, counts the keys as operations, and pushes `true` iff there is an order-preserving assignment of the
+    signatures to keys under which every signature verifies over the script code with the signatures (and separators)
+    removed — otherwise `false`, never an error. -/
+theorem checkmultisig_iff_matches (env : Env) (sub : List Script.POp) (s : St) (keys sigs : List Bytes) (dummy : Bytes)
+    (r : List Bytes) (c : Ctx) (sc : Bytes)
+    (hds : s.ds = encodeNum (keys.length : Int) :: (keys ++ encodeNum (sigs.length : Int) :: (sigs ++ dummy :: r)))
+    (hflags : hasFlag env.flags fStrictEnc = false ∧ hasFlag env.flags fDERSig = false ∧ hasFlag env.flags fLowS = false)
+    (hnd : hasFlag env.flags fStrictMultiSig = false) (hnf : hasFlag env.flags fNullFail = false)
+    (hfk : hasFlag env.flags fForkID = false)
+    (hnk : (encodeNum (keys.length : Int)).length ≤ env.cfg.maxNumLen)
+    (hns : (encodeNum (sigs.length : Int)).length ≤ env.cfg.maxNumLen)
+    (hmaxk : keys.length ≤ env.cfg.maxPubKeys) (hsmall : keys.length ≤ 2147483647)
+    (hops : s.numOps + keys.length ≤ env.cfg.maxOps)
+    (hle : sigs.length ≤ keys.length)
+    (hcode : Script.unparse (sigs.foldl (fun code sg => removeOpcode (removeOpcodeByData code sg) 0xab) sub) = .ok sc)
+    (hctx : env.ctx = some c)
+    (hkeys : ∀ k ∈ keys, env.H.pubKeyOk k = true)
+    (hsigs : ∀ sg ∈ sigs, sg.length ≠ 0 ∧ ∃ h, sigDigest env c sc ((sg.getLast?.getD 0).toNat) = some h ∧
+        ∀ k ∈ keys, ∃ b, env.H.verify false sg.dropLast h k = some b) :
+    (∃ ok : Bool, opCheckMultiSig env sub s = .ok (pushBool ok { s with ds := r, numOps := s.numOps + keys.length }) ∧
+      (ok = true ↔ Matches (sigVerifies env c sc) sigs keys)) := by
+  have hloop := multisigLoop_eq_walk env c sc sigs keys (keys.length + sigs.length + 1) hflags hkeys hsigs (by omega)
+  refine ⟨walk (sigVerifies env c sc) sigs keys, ?_, walk_iff_matches _ _ _⟩
+  have hk64 : clamp64 (keys.length : Int) = (keys.length : Int) := by
+    unfold clamp64
+    have a1 : ¬ ((keys.length : Int) > 9223372036854775807) := by omega
+    have a2 : ¬ ((keys.length : Int) < -9223372036854775808) := by omega
+    simp only [a1, a2, ↓reduceIte]
+  have hs64 : clamp64 (sigs.length : Int) = (sigs.length : Int) := by
+    unfold clamp64
+    have a1 : ¬ ((sigs.length : Int) > 9223372036854775807) := by omega
+    have a2 : ¬ ((sigs.length : Int) < -9223372036854775808) := by omega
+    simp only [a1, a2, ↓reduceIte]
+  have hlegacy : (sigs.foldl (fun code sg =>
+      if sg.length > 0 && !(!hasFlag env.flags fForkID || (sg.getLast?.getD 0).toNat &&& 0x40 != 0x40) then code
+      else removeOpcode (removeOpcodeByData code sg) 0xab) sub) =
+      sigs.foldl (fun code sg => removeOpcode (removeOpcodeByData code sg) 0xab) sub := by
+    congr 1
+    funext code sg
+    simp [hfk]
+  unfold opCheckMultiSig
+  simp only [hds, C05.toNum_encodeNum env _ hnk, hk64]
+  have h1 : ¬ ((keys.length : Int) < 0) := by omega
+  have h2 : ¬ ((keys.length : Int) > (env.cfg.maxPubKeys : Int)) := by omega
+  have h3 : ¬ (s.numOps + (keys.length : Int).toNat > env.cfg.maxOps) := by simp only [Int.toNat_natCast]; omega
+  simp only [h1, ↓reduceIte, h2, h3, Int.toNat_natCast]
+  have hp1 : popN keys.length (keys ++ encodeNum (sigs.length : Int) :: (sigs ++ dummy :: r)) =
+      some (keys, encodeNum (sigs.length : Int) :: (sigs ++ dummy :: r)) := by
+    unfold popN; simp
+  simp only [hp1, C05.toNum_encodeNum env _ hns, hs64]
+  have h4 : ¬ ((sigs.length : Int) < 0) := by omega
+  have h5 : ¬ ((sigs.length : Int) > (keys.length : Int)) := by omega
+  simp only [h4, ↓reduceIte, h5, Int.toNat_natCast]
+  have hp2 : popN sigs.length (sigs ++ dummy :: r) = some (sigs, dummy :: r) := by
+    unfold popN; simp
+  simp only [hp2, hnd, Bool.false_and, Bool.false_eq_true, ↓reduceIte, hctx, hlegacy, hcode, hloop, hnf]
+  unfold sigVerifies
+  have h6 : ¬ (s.numOps + keys.length > env.cfg.maxOps) := by omega
+  simp [h6]
+
+/-- non-vacuity: a 1-of-2 check with a toy verifier (accepts exactly when signature and key start with the same byte) -/
+def toyTx : Tx :=
+  { version := 1, lockTime := 0,
+    inputs := [ { prevTxID := List.replicate 32 7, vout := 0, unlocking := none, sequence := 1, prevSats := 5, prevScript := some [0x52] } ],
+    outputs := [ { sats := 3, script := [0x6a] } ] }
+def toyEnv : Env :=
+  { H := ⟨id, id, id, fun _ => true, fun _ sg _ k => some (sg.head? == k.head?), fun _ => false⟩, flags := 0, cfg := cfgBefore,
+    ctx := some ⟨toyTx, 0, { sats := 5, script := [0xae] }⟩ }
+example :
+    opCheckMultiSig toyEnv [⟨0xae, [], 1⟩] { ds := [encodeNum 2, [2], [3], encodeNum 1, [3, 1], []] } =
+      .ok (pushBool true { ds := [], numOps := 2 }) ∧
+    opCheckMultiSig toyEnv [⟨0xae, [], 1⟩] { ds := [encodeNum 2, [2], [3], encodeNum 2, [3, 1], [2, 1], []] } =
+      .ok (pushBool false { ds := [], numOps := 2 }) := by
+  refine ⟨by decide +kernel, by decide +kernel⟩
 
 /-- ✓gen — **building the script code never edits the script being executed.**  `removeOpcodeByData` / `removeOpcode`
     (signature and separator removal) write only into a slice they allocate themselves (regenerated write-site table,
